@@ -56,8 +56,11 @@ func (f *Warn) Call(s *slip.Scope, args slip.List, depth int) slip.Object {
 	switch ta := args[0].(type) {
 	case slip.Symbol:
 		c := slip.FindClass(string(ta))
+		if c == nil {
+			slip.ErrorPanic(s, depth, "%s does not designate a warning class.", ta)
+		}
 		cond = c.MakeInstance()
-		if !cond.IsA("warning") {
+		if cond == nil || !cond.IsA("warning") {
 			slip.ErrorPanic(s, depth, "%s does not designate a warning class.", ta)
 		}
 		args = args[1:]
